@@ -17,3 +17,15 @@
 package tree
 
 // Property-level lemmas (ghost code). Each is verified from the contracts of the functions it calls.
+
+func verif_lemma_c12_history_independence(a, b *keySplitter, k1, v1, k2, v2 Item) {
+	verif_assume(a.salt == b.salt)
+	a.Reset()
+	b.Reset()
+	_ = a.Append(k1, v1)
+	_ = b.Append(k1, v1)
+	verif_assert(a.size == b.size && a.CrossedBoundary() == b.CrossedBoundary())
+	_ = a.Append(k2, v2)
+	_ = b.Append(k2, v2)
+	verif_assert(a.size == b.size && a.CrossedBoundary() == b.CrossedBoundary())
+}
